@@ -49,7 +49,7 @@ def run_inprocess(argv, stdin_lines):
     return {"status": status, "exc": exc, "out": out.getvalue(), "err": err.getvalue(), "consumed": fake.consumed}
 
 
-def run_pty(argv, cols, rows, python=None, timeout=20, console_script=False):
+def run_pty(argv, cols, rows, python=None, timeout=20, console_script=False, stdin_lines=None, env_extra=None):
     """
     the calculator as a child whose standard input and output are a pseudo-terminal with a real window size (what a user at an
     80-column terminal has): output that is folded, truncated or decorated for the terminal shows only there
@@ -67,6 +67,11 @@ def run_pty(argv, cols, rows, python=None, timeout=20, console_script=False):
     env.pop("COLUMNS", None)
     env.pop("LINES", None)
     env["TERM"] = "xterm"
+    for k, v in (env_extra or {}).items():
+        if v is None:
+            env.pop(k, None)
+        else:
+            env[k] = v
     launcher = ["-m", "cvss.cvss_calculator"]
     if console_script:
         launcher = ["-c", "import sys; from cvss.cvss_calculator import main; sys.argv[0] = 'cvss_calculator'; sys.exit(main())"]
@@ -75,11 +80,14 @@ def run_pty(argv, cols, rows, python=None, timeout=20, console_script=False):
         fcntl.ioctl(slave, termios.TIOCSWINSZ, struct.pack("HHHH", rows, cols, 0, 0))
         attrs = termios.tcgetattr(slave)
         attrs[1] &= ~termios.ONLCR          # no NL -> CR NL translation: the bytes the program wrote
+        attrs[3] &= ~termios.ECHO           # what is typed is not copied into the output
         termios.tcsetattr(slave, termios.TCSANOW, attrs)
         p = subprocess.Popen([python or sys.executable] + launcher + list(argv), stdin=slave, stdout=slave, stderr=subprocess.PIPE, env=env, cwd="/",
                              close_fds=True)
         os.close(slave)
         slave = None
+        if stdin_lines:
+            os.write(master, ("".join(l + "\n" for l in stdin_lines)).encode("ascii", "replace"))     # typed ahead: the line discipline keeps it
         chunks = []
         end = time.time() + timeout
         while time.time() < end:
